@@ -4,7 +4,7 @@ independently; every combine() output is compared with the per-box concatenation
 models and must validate; mismatched pairs must be refused before anything is written."""
 import os, random
 import numpy as np
-from .. import common, gen, refparse, refmodel, workload, pools
+from .. import common, gen, refparse, refmodel, workload, pools, endurance
 
 ID = "C06"
 LEVEL = "exploration"
@@ -18,7 +18,7 @@ RULE = ("cases = pairs of generated 3D plotfiles on a common mesh x layout relat
         "non-monotone or a selection is used")
 ASSUMPTIONS = ["generator/refparse trusted base", "pool shim M1 with shuffled schedules",
                "a pair with the same boxes in another order: 'refuse or correct' (statement silent)"]
-REQUIRED_OBS = {"combined": 80, "six_digit_index_mismatch_refused": 1, "roles_swapped_same_process": 40, "mismatched_refused": 10, "cli_runs": 5, "first_nonmonotone": 3}
+REQUIRED_OBS = {"endurance_calls": 100, "combined": 80, "six_digit_index_mismatch_refused": 1, "roles_swapped_same_process": 40, "mismatched_refused": 10, "cli_runs": 5, "first_nonmonotone": 3}
 TIMEOUT = {"quick": 300, "thorough": 1500}
 RELS = ["same", "order", "other", "single"]
 
@@ -52,7 +52,8 @@ def cases(tier, seed):
     # scale: box indices of six digits - two meshes one cell apart must still be told apart
     for k in range(1 if tier == "quick" else 4):
         cs.append({"kind": "long_mismatch", "split": 100002 + 7001 * k + seed % 5, "sel_seed": seed * 29 + 999 + k})
-    return cs
+    # M10: the same operation repeated in one process under a low open-file limit (vlib/endurance.py)
+    return list(cs) + [endurance.case("combine", tier, seed)]
 
 
 _calls = {}
@@ -72,6 +73,7 @@ def setup():
                 _calls[name] = _calls.get(name, 0) + 1
                 return orig(args)
             w.__name__ = name
+            w.__wrapped__ = orig
             return w
         setattr(C, name, mk(orig, name))
 
@@ -126,6 +128,8 @@ def long_mismatch(case, work, rec):
 
 
 def run_case(case, work, rec):
+    if case.get("kind") == "endurance":
+        return endurance.run_case(case, work, rec)
     if case.get("kind") == "long_mismatch":
         return long_mismatch(case, work, rec)
     from amr_kitchen import PlotfileCooker
